@@ -690,6 +690,9 @@ def plan_C05(tier, seed):
     T = ("Trace_Sphere", "Trace.cfg")
     nc, ns, per = (8, 6, 220) if tier == "quick" else (32, 32, 4000)
     sh = [Shard("conv_%02d" % i, drv_sphere.gen_conv, dict(seed=seed, shard=i, n=per), *T) for i in range(nc)]
+    # both poles of every frame, exactly, on a grid of obliquities 0..30 (observer latitudes -90..90): step 0.01 / 0.002 deg
+    npo, stp = (8, 0.01) if tier == "quick" else (16, 0.002)
+    sh += [Shard("poles_%02d" % i, drv_sphere.gen_poles, dict(seed=seed, shard=i, n=int(30.0 / stp / npo) + 1, step=stp), *T) for i in range(npo)]
     sh += [Shard("sep_%02d" % i, drv_sphere.gen_sep, dict(seed=seed, shard=i, n=per * 2), *T) for i in range(ns)]
     return dict(
         mc=[MC("MC_Octa", "MC_Octa.cfg", workers=8, heap="2g", note="rotation operators on the 26 lattice directions x quarter turns")],
